@@ -344,6 +344,84 @@ func c07reuse(who string, settleMs int) string {
 	return fmt.Sprintf("a=%d b=%d ordinary=%d panics=%d blocked=%d", a, b, atomic.LoadInt64(&ordinary), panics, blocked)
 }
 
+// c07edge: two situations around the pending table.
+// "sendfail": the write of the request fails (SendIQ returns the error while the caller's context lives on): no entry
+// may stay behind - a response with that id that arrives later (the peer re-uses the id, a retransmission after a
+// resumption) is routed like any other packet. "handlersend": a response nobody waits for reaches an ordinary handler
+// that sends a request of its own: routing that response must not hold anything SendIQ needs (a component routes in
+// its receive loop: a blocked route call stops packet processing for good).
+func c07edge(kind, who string) string {
+	st := newStub(nil)
+	router := xmpp.NewRouter()
+	var ordinary, nested, nestedErr int64
+	var sender interface {
+		SendIQ(ctx context.Context, iq *stanza.IQ) (chan stanza.IQ, error)
+	}
+	mkreq := func(id string) *stanza.IQ {
+		iq, _ := stanza.NewIQ(stanza.Attrs{Type: stanza.IQTypeGet, Id: id, To: "srv"})
+		iq.Payload = &stanza.Version{}
+		return iq
+	}
+	ctx, cancel := context.WithCancel(context.Background())
+	defer cancel()
+	router.NewRoute().HandlerFunc(func(s xmpp.Sender, p stanza.Packet) {
+		if iq, ok := p.(*stanza.IQ); ok && (iq.Type == stanza.IQTypeResult || iq.Type == stanza.IQTypeError) {
+			atomic.AddInt64(&ordinary, 1)
+			if kind == "handlersend" {
+				if _, err := sender.SendIQ(ctx, mkreq("from-handler-"+iq.Id)); err != nil {
+					atomic.AddInt64(&nestedErr, 1)
+				}
+				atomic.AddInt64(&nested, 1)
+			}
+		}
+	})
+	var asSender xmpp.Sender
+	if who == "component" {
+		comp, _ := xmpp.NewComponent(xmpp.ComponentOptions{Domain: "c.localhost", Secret: "s"}, router, func(error) {})
+		xmpp.VerifSetComponentTransport(comp, st)
+		sender, asSender = comp, comp
+	} else {
+		client, err := newStubClient(&xmpp.Config{Jid: "u@localhost/r", Credential: xmpp.Password("p")}, router, nil, st)
+		if err != nil {
+			return "newclient-failed"
+		}
+		client.Session = &xmpp.Session{}
+		sender, asSender = client, client
+	}
+	panics, blocked := 0, 0
+	route := func(id string) {
+		done := make(chan struct{})
+		go func() {
+			defer close(done)
+			defer func() {
+				if r := recover(); r != nil {
+					panics++
+				}
+			}()
+			xmpp.VerifRoute(router, asSender, &stanza.IQ{Attrs: stanza.Attrs{Type: "result", Id: id, From: "srv"}})
+		}()
+		select {
+		case <-done:
+		case <-time.After(time.Second):
+			blocked++
+		}
+	}
+	sendErr := false
+	if kind == "sendfail" {
+		st.mu.Lock()
+		st.failAt[st.nwrite+1] = true
+		st.mu.Unlock()
+		_, err := sender.SendIQ(ctx, mkreq("lost"))
+		sendErr = err != nil
+		route("lost")
+	} else {
+		route("nobody-waits")
+		route("nobody-waits-2")
+	}
+	return fmt.Sprintf("senderr=%v ordinary=%d nested=%d nestederr=%d panics=%d blocked=%d", sendErr, atomic.LoadInt64(&ordinary),
+		atomic.LoadInt64(&nested), atomic.LoadInt64(&nestedErr), panics, blocked)
+}
+
 // c07pendreconnect: a request is pending when the connection is lost and the session resumed (the real
 // Client.connect against a scripted server that confirms the resumption): the response, delivered on the resumed
 // session, still reaches the caller's channel - exactly once, channel closed, nothing to the ordinary routes.
@@ -415,6 +493,10 @@ func (c07) Exec(c Case) []string {
 			obs = append(obs, c07pendreconnect())
 			continue
 		}
+		if op[0] == "edge" && len(op) == 3 {
+			obs = append(obs, c07edge(op[1], op[2]))
+			continue
+		}
 		if op[0] == "reuse" && len(op) == 3 {
 			ms, _ := strconv.Atoi(op[2])
 			obs = append(obs, c07reuse(op[1], ms))
@@ -462,6 +544,13 @@ func (c07) Generate(rng *rand.Rand, tier string, st *Stats) []Case {
 			cases = append(cases, Case{ID: fmt.Sprintf("c07-%d", n), Ops: [][]string{{"reuse", who, strconv.Itoa(ms)}}})
 			n++
 			st.Inc("reuse_id_after_answer")
+		}
+	}
+	for _, who := range []string{"client", "component"} {
+		for _, kind := range []string{"sendfail", "handlersend"} {
+			cases = append(cases, Case{ID: fmt.Sprintf("c07-%d", n), Ops: [][]string{{"edge", kind, who}}})
+			n++
+			st.Inc("edge_" + kind)
 		}
 	}
 	R := 40
